@@ -42,11 +42,62 @@ def drift():
     return sorted(f for f in set(base) | set(cur) if base.get(f) != cur.get(f))
 
 
+def table_rows_changed(limit=6):
+    """rows of the generated tables (lean/AJ/Gen/Tables.lean) that differ from the tables of the baseline tree: each is a concrete input on which the
+    library now answers differently (the table theorems compare the model with these rows)"""
+    base = os.path.join(ROOT, "tables_baseline.lean")
+    gen = os.path.join(ROOT, "lean", "AJ", "Gen", "Tables.lean")
+    if not (os.path.exists(base) and os.path.exists(gen)):
+        return []
+    def defs(path):
+        out = {}
+        for line in open(path):
+            m = re.match(r"def (\w+) : [^=]*:= (.*)$", line.strip())
+            if m:
+                out[m.group(1)] = m.group(2)
+        return out
+    def rows(body):
+        body = body.strip()
+        if not (body.startswith("[") and body.endswith("]")):
+            return [body]
+        inner, out, depth, cur = body[1:-1], [], 0, ""
+        for ch in inner:
+            if ch in "([":
+                depth += 1
+            elif ch in ")]":
+                depth -= 1
+            if ch == "," and depth == 0:
+                out.append(cur.strip()); cur = ""
+            else:
+                cur += ch
+        if cur.strip():
+            out.append(cur.strip())
+        return out
+    a, b = defs(base), defs(gen)
+    res = []
+    for name in sorted(set(a) | set(b)):
+        if a.get(name) == b.get(name):
+            continue
+        ra, rb = rows(a.get(name, "[]")), rows(b.get(name, "[]"))
+        for i in range(max(len(ra), len(rb))):
+            x, y = (ra[i] if i < len(ra) else None), (rb[i] if i < len(rb) else None)
+            if x != y:
+                res.append({"table": name, "row": i, "baseline": (x or "")[:300], "now": (y or "")[:300]})
+                if len(res) >= limit:
+                    return res
+    return res
+
+
 if __name__ == "__main__":
     if "--update" in sys.argv:
         import subprocess
         head = subprocess.run(["git", "-C", REPO, "rev-parse", "--short", "HEAD"], stdout=subprocess.PIPE, text=True).stdout.strip()
         json.dump({"repo_head": head, "files": current()}, open(BASE, "w"), indent=1, sort_keys=True)
+        # the generated tables of the baseline tree: a broken table theorem is then reported with the rows that changed
+        import shutil
+        gen = os.path.join(ROOT, "lean", "AJ", "Gen", "Tables.lean")
+        if os.path.exists(gen):
+            shutil.copyfile(gen, os.path.join(ROOT, "tables_baseline.lean"))
         print("baseline recorded for", head, len(current()), "files")
     else:
         d = drift()
